@@ -792,7 +792,7 @@ Proof.
 Qed.
 Lemma ks_wake s u : keeps_stream (tasks s u) (tasks (wake_pump_closed s) u).
 Proof.
-  unfold wake_pump_closed. destruct (pump_owner s) as [p|]; [|apply ks_refl].
+  unfold wake_pump_closed. destruct (closed s); [|apply ks_refl]. destruct (pump_owner s) as [p|]; [|apply ks_refl].
   destruct (is_ppwait (t_pc (tasks s p))); [|apply ks_refl]. apply (ks_finish s p ResClosed u).
 Qed.
 Lemma table_push s t f : table (push_item s t f) = table s.
